@@ -73,8 +73,23 @@ void check_new_block(Ctx &c, uint8_t *p, size_t size, const char *what) {
         sim::violation("c03:overlap", "%s(%zu) returned memory overlapping the start of a live block of %zu bytes", what, size, it->second.size);
 }
 
+static const size_t EDGE = 4096; // blocks of 64 MiB and more are only patterned at their first and last 4 KiB
+static inline bool is_vast(size_t n) { return n >= ((size_t)64 << 20); }
+void fill_block(uint8_t *p, size_t n, uint64_t tag) {
+    if (!is_vast(n)) { pat::fill(p, n, tag); return; }
+    pat::fill(p, EDGE, tag);
+    pat::fill(p + n - EDGE, EDGE, tag ^ 0x5555);
+}
+long first_bad_block(const uint8_t *p, size_t n, uint64_t tag) {
+    if (!is_vast(n)) return pat::first_bad(p, n, tag);
+    long b = pat::first_bad(p, EDGE, tag);
+    if (b >= 0) return b;
+    b = pat::first_bad(p + n - EDGE, EDGE, tag ^ 0x5555);
+    return b >= 0 ? (long)(n - EDGE) + b : -1;
+}
+
 void verify(Ctx &c, const Block &b, const char *when) {
-    long bad = pat::first_bad(b.p, b.size, b.tag);
+    long bad = first_bad_block(b.p, b.size, b.tag);
     if (bad >= 0)
         sim::violation("c03:clobbered", "%s: live block of %zu bytes (class %zu) was modified at offset %ld while it was live", when, b.size, b.cls, bad);
     (void)c;
@@ -83,6 +98,8 @@ void verify(Ctx &c, const Block &b, const char *when) {
 Block place(Ctx &c, uint8_t *p, size_t size) {
     Block b;
     b.p = p; b.size = size; b.tag = c.next_tag++;
+    if (size > 512 && in_sba_page(p))
+        sim::violation("c03:size-class", "a request of %zu bytes (beyond the largest size class) was served from a small-block page: it is not writable for its whole size", size);
     b.cls = (size <= 512 && in_sba_page(p)) ? class_of(size) : 0;
     if (size <= 512 && !b.cls) sim::probe("small_request_outside_pages");
     if (b.cls) {
@@ -96,7 +113,7 @@ Block place(Ctx &c, uint8_t *p, size_t size) {
         }
         c.page_class[pg] = b.cls;
     }
-    pat::fill(p, size, b.tag);
+    fill_block(p, size, b.tag);
     c.live[(uintptr_t)p] = b;
     return b;
 }
@@ -159,6 +176,7 @@ void run_worker(Ctx &c, int idx) {
                 size_t i = (size_t)op.a % w.own.size();
                 Block b = w.own[i];
                 size_t n = (size_t)op.b;
+                if (is_vast(b.size)) break; // growing an address-space-only block through an allocator without mem_realloc would copy all of it
                 verify(c, b, "before realloc");
                 c.live.erase((uintptr_t)b.p); // during the call the old block may legitimately be given up
                 void *p = b.p;
@@ -177,10 +195,10 @@ void run_worker(Ctx &c, int idx) {
                     // grown in place: the extension must not run into a neighbour
                     check_new_block(c, (uint8_t *)p, n, "realloc(in place)");
                 }
-                long bad = pat::first_bad(p, keep, b.tag);
+                long bad = is_vast(b.size) ? pat::first_bad(p, keep < EDGE ? keep : EDGE, b.tag) : pat::first_bad(p, keep, b.tag);
                 if (bad >= 0) sim::violation("c03:realloc-lost", "realloc(%zu -> %zu): old contents not preserved at offset %ld", b.size, n, bad);
                 Block nb;
-                if (p == b.p) { nb = b; nb.size = n; nb.tag = c.next_tag++; pat::fill(nb.p, n, nb.tag); if (nb.cls && n > nb.cls) sim::violation("c03:realloc", "block grown in place beyond its size class"); c.live[(uintptr_t)nb.p] = nb; }
+                if (p == b.p) { nb = b; nb.size = n; nb.tag = c.next_tag++; fill_block(nb.p, n, nb.tag); if (nb.cls && n > nb.cls) sim::violation("c03:realloc", "block grown in place beyond its size class"); c.live[(uintptr_t)nb.p] = nb; }
                 else nb = place(c, (uint8_t *)p, n);
                 w.own[i] = nb;
                 break;
@@ -447,6 +465,7 @@ void gen(uint64_t seed, int tier, sim::Plan &p) {
             uint64_t k = r.below(100);
             int64_t sz = style == 1 ? hammer : style == 2 ? r.pick(sizes) : (r.chance(0.6) ? r.pick(sizes) : r.range(1, 600));
             if (style != 1 && r.chance(0.002)) sz = r.pick(std::vector<int64_t>{65536, 300000, 1 << 20}); // rare very large (parent-served) block
+            if (style != 1 && r.chance(0.001)) sz = ((int64_t)r.range(1, 3) << 32) + r.pick(std::vector<int64_t>{1, 32, 64, 100, 512, 513, 4096}); // beyond 4 GiB: address space only
             if (style == 1) {
                 if (k < 70) { op.kind = OP_ACQ; op.a = sz; }
                 else if (k < 90) { op.kind = OP_REL; op.a = r.range(0, 1000); }
